@@ -49,6 +49,7 @@ func runC02(c *core.Ctx) {
 	d := descOf(p, argv)
 	c.Journal(d)
 	obs := drive.Run(drive.Single(p), argv)
+	c.LibDone()
 	c.Eval()
 	if !obs.Accepted() {
 		c.Inc("not_accepted")
@@ -132,6 +133,7 @@ func runC02(c *core.Ctx) {
 		app.Builtin = true
 		c.Journal(CaseDesc{Decl: d.Decl, Spec: d.Spec, Argv: argv, Note: "twin run with built-in types"})
 		o2 := drive.Run(app, argv)
+		c.LibDone()
 		c.Eval()
 		if !o2.Accepted() {
 			c.Violation(fmt.Sprintf("accepted with recording types, not with the built-in types (err=%v panic=%v)", o2.Err, o2.Pan), nil, nil)
